@@ -724,7 +724,7 @@ func run(tier, unit string, r *vlib.Rec) {
 	report := func(fs []finding, c kase) {
 		for _, f := range fs {
 			if strings.HasPrefix(f.sig, "INTERNAL:") {
-				r.Err = f.sig + " " + f.what
+				r.Err = f.sig + " " + f.what + " case " + vlib.JSON(c)
 				continue
 			}
 			r.Fail(f.sig, f.what, c)
